@@ -75,6 +75,29 @@ CHECKS_K1 = {
                 "the library-private NotSet sentinel of with_latest_from. reactivex.amb (n-ary fold of amb_) is not separately contracted.",
         "technique": "K1 handler refinement per source index at arity 2 and 3, SMT",
     },
+    "C42": {
+        "text": "Function and closure contracts on the real CatchScheduler under a class invariant I (handler fixed; a cached recursive "
+                "wrapper is a CatchScheduler with the same handler wrapping `_recursive_original`), each proved from an ARBITRARY object "
+                "satisfying I (cache empty/hit/miss, every state field the contract does not name arbitrary within its __init__ type): "
+                "__init__ establishes I; _get_recursive_wrapper(s) returns a catching scheduler with the same handler that wraps s and "
+                "satisfies I; _wrap(action) returns W with W(s, st): the action is called exactly once with (R, st), R catching with the "
+                "same handler and wrapping s (so recursive scheduling is caught again - coinductively, R obeys this very class contract); "
+                "no raise => W returns the action's value and the handler is not called; raise e => handler called exactly once with e, "
+                "truthy verdict => swallowed (a Disposable is returned), falsy => the same e propagates. schedule / schedule_relative / "
+                "schedule_absolute make exactly one call of the same method on the wrapped scheduler with the same due time and state and "
+                "an action satisfying W's contract, return its result and invoke nothing. schedule_periodic makes one "
+                "schedule_periodic(period, P, state) call and returns a disposable holding that subscription; P by frame induction: a "
+                "fresh P calls the action once with the state; a successful call returns the new state, calls no handler and changes no "
+                "closure cell and no field (so it stays live after any number of successes); raise e => handler once with e; truthy => "
+                "returns None, the subscription is disposed, and from then on P never calls the action and changes nothing; falsy => e "
+                "propagates.",
+        "note": "Trusted: rxvc and its Python-subset encoding; z3; the wrapped scheduler, the actions and the handler are opaque (actions may "
+                "return or raise anything and may re-enter the scheduler they are given; the handler gives any verdict); A-sched-eq: "
+                "schedulers compare by identity. That the wrapped scheduler actually runs what it is handed is its own contract (C28-C31, "
+                "C34), not CatchScheduler's. Counter-models are replayed by catchrun.py (scenario trees of <= 3 nodes / depth 2 and <= 2 "
+                "periodic subscriptions on a VirtualTimeScheduler, handler verdicts per exception) - bounded, replay only.",
+        "technique": "function/closure contracts with a class invariant and frame induction, symbolic execution of the real methods, SMT",
+    },
     "C43": {
         "text": "Lock-set contracts (guarded_by): the downstream observer, every window subject handed to it, and every state cell that "
                 "handlers share are guarded by the operator's ONE lock.  (a) Path-sensitive, on the K1 symbolic runs of merge_all_, "
